@@ -1271,7 +1271,12 @@ namespace
                 // one function per instantiation of the call operator
                 if (auto* FTD = LE->getCallOperator()->getDescribedFunctionTemplate())
                     for (auto* Spec : FTD->specializations())
+                    {
                         emitFunction(Spec, LE);
+                        // lambdas written inside the generic lambda exist per instantiation as well
+                        if (Spec->hasBody())
+                            TraverseStmt(Spec->getBody());
+                    }
                 return true;
             }
             emitFunction(LE->getCallOperator(), LE);
